@@ -394,6 +394,9 @@ ENUM_TUPLES = [
     ("-2147483649,1", None), ("9223372036854775807,-1", None), ("5,5,7", None), ("0,18446744073709551615ULL", None),
     ("1,2", "unsigned char"), ("200,255", "unsigned char"), ("-128,127", "signed char"), ("65535,0", "unsigned short"), ("-5,5", "long long"),
     ("4000000000,1", "unsigned int"), ("1,18446744073709551615ULL", "unsigned long long"),
+    # every other integer kind as the fixed underlying type, with its most negative / largest value (plain char is a kind of its own)
+    ("-1,-128,127", "char"), ("0,100", "char"), ("-32768,32767,-1", "short"), ("-1,2147483647", "int"), ("-1,1", "long"), ("18446744073709551615UL,0", "unsigned long"),
+    ("65535,1", "char16_t"), ("4294967295,7", "char32_t"), ("-1,3", "wchar_t"), ("-9223372036854775807LL-1,0", "long long"), ("255,0", "unsigned char"),
 ]
 ENUM_STYLES = ["consts", "moduleconsts", "newtype", "newtype_global", "bitfield", "rust", "rust_non_exhaustive"]
 
